@@ -198,10 +198,9 @@ func runC15(c *Ctx) {
 	}
 	// H2
 	if u := c.unit("C15-H2", "node.(*NamespaceMgr).GetNamespaceNodeWithPrimaryKeySum"); u != nil {
-		r.StoreValues("C15-H2", u, an.LocalStore("pid"), []string{"(p2 % v.PartitionNum)"}, 1)
-		r.StoreValues("C15-H2", u, an.LocalStore("fullName"), []string{"common.GetNsDesp(p0, (p2 % v.PartitionNum))", "common.GetNsDesp(p0, pid)"}, 1)
+		// (pid and fullName, defined once by pure expressions, print as their definitions)
 		nd := u.Match(an.LocalStore("n"))
-		r.Check("C15-H2", u.Name+": the node is looked up under the partition's full name", "", len(nd) == 1 && nd[0].Tuple != nil && u.C.Term(nd[0].Tuple) == "recv.kvNodes[fullName]", "")
+		r.Check("C15-H2", u.Name+": the node is looked up under the partition's full name", "", len(nd) == 1 && nd[0].Tuple != nil && u.C.Term(nd[0].Tuple) == "recv.kvNodes[common.GetNsDesp(p0, (p2 % v.PartitionNum))]", "")
 		vd := u.Match(an.LocalStore("v"))
 		r.Check("C15-H2", u.Name+": the partition count is the namespace's own", "", len(vd) == 1 && vd[0].Tuple != nil && u.C.Term(vd[0].Tuple) == "recv.nsMetas[p0]", "")
 		r.Returns("C15-H2", u, []an.ReturnClass{
